@@ -177,6 +177,8 @@ def shared(ctx):
     """'liquidity tokens stay fully backed': every request counted in a batch total is settled (C15.R5: the burnt token coin is rewritten on every path; only selected
     requests touch coins), requests name their pool canonically (C15.R2) and only genuine requests are selected (C15.R1)."""
     from rules.engine import core
+    from rules.props import c01
+    core.import_rules(ctx, [c01.r6_floor], "X01")          # shares rounded DOWN: rounded to nearest, the liquidity tokens handed out for one block can exceed what the pool records
     from rules.props import c06
     core.import_rules(ctx, [c06.r5_activation_table], "X06")          # "once enabled the ERG/SYM pool exists": enabled = TIP-902, in create_builtins and in the pegging step alike
     core.import_rules(ctx, [c15.r1_selection_atoms, c15.r2_canonical_keys, c15.r5_only_selected, c15.r6_stage_order], "X15")   # R6: each pool is processed once per block (keys sorted, then deduplicated): a pool processed twice burns the same tokens twice against its recorded liquidity
